@@ -92,6 +92,23 @@ func init() {
 			{Name: "rewrite: next cycle through cycleStart(now + CycleLength)", Edits: []Edit{
 				{File: f, Old: "\tif now.After(windowEnd) {\n\t\tcycleStart = cycleStart.Add(w.cfg.CycleLength)\n", New: "\tif now.After(windowEnd) {\n\t\tcycleStart = w.cycleStart(now.Add(w.cfg.CycleLength))\n"},
 			}},
+			// round 3: refactoring classes
+			{Name: "rewrite: window built by a shared helper, early return while the window is open", Edits: []Edit{
+				{File: f, Old: "\twindowStart := cycleStart.Add(offset)\n\twindowEnd := windowStart.Add(w.cfg.WindowLength)\n\n\t// If we're past this cycle's window, use next cycle\n\tif now.After(windowEnd) {\n\t\tcycleStart = cycleStart.Add(w.cfg.CycleLength)\n\t\twindowStart = cycleStart.Add(offset)\n\t\twindowEnd = windowStart.Add(w.cfg.WindowLength)\n\t}\n\n\treturn windowStart, windowEnd\n}\n\n// GetWindowInfo", New: "\twindowStart, windowEnd := w.windowInCycle(cycleStart, offset)\n\tif !now.After(windowEnd) {\n\t\treturn windowStart, windowEnd\n\t}\n\treturn w.windowInCycle(cycleStart.Add(w.cfg.CycleLength), offset)\n}\n\nfunc (w *WindowCalculator) windowInCycle(base time.Time, offset time.Duration) (start, end time.Time) {\n\tstart = base.Add(offset)\n\tend = start.Add(w.cfg.WindowLength)\n\treturn start, end\n}\n\n// GetWindowInfo"},
+			}},
+			{Name: "rewrite: the cycle is selected first, the window is built once", Edits: []Edit{
+				{File: f, Old: "\twindowStart := cycleStart.Add(offset)\n\twindowEnd := windowStart.Add(w.cfg.WindowLength)\n\n\t// If we're past this cycle's window, use next cycle\n\tif now.After(windowEnd) {\n\t\tcycleStart = cycleStart.Add(w.cfg.CycleLength)\n\t\twindowStart = cycleStart.Add(offset)\n\t\twindowEnd = windowStart.Add(w.cfg.WindowLength)\n\t}\n\n\treturn windowStart, windowEnd\n}\n\n// GetWindowInfo", New: "\tif thisEnd := cycleStart.Add(offset).Add(w.cfg.WindowLength); thisEnd.Before(now) {\n\t\tcycleStart = cycleStart.Add(w.cfg.CycleLength)\n\t}\n\tstart = cycleStart.Add(offset)\n\tend = start.Add(w.cfg.WindowLength)\n\treturn\n}\n\n// GetWindowInfo"},
+			}},
+			{Name: "cycle selected first, but one cycle too far", ExpectRule: "C33.R3", Edits: []Edit{
+				{File: f, Old: "\twindowStart := cycleStart.Add(offset)\n\twindowEnd := windowStart.Add(w.cfg.WindowLength)\n\n\t// If we're past this cycle's window, use next cycle\n\tif now.After(windowEnd) {\n\t\tcycleStart = cycleStart.Add(w.cfg.CycleLength)\n\t\twindowStart = cycleStart.Add(offset)\n\t\twindowEnd = windowStart.Add(w.cfg.WindowLength)\n\t}\n\n\treturn windowStart, windowEnd\n}\n\n// GetWindowInfo", New: "\tif thisEnd := cycleStart.Add(offset).Add(w.cfg.WindowLength); thisEnd.Before(now) {\n\t\tcycleStart = cycleStart.Add(2 * w.cfg.CycleLength)\n\t}\n\tstart = cycleStart.Add(offset)\n\tend = start.Add(w.cfg.WindowLength)\n\treturn\n}\n\n// GetWindowInfo"},
+			}},
+			{Name: "rewrite: floor in a cycleIndex(t) helper, test written as index*cycle > elapsed", Edits: []Edit{
+				{File: f, Old: "func (w *WindowCalculator) cycleStart(t time.Time) time.Time {\n\telapsed := t.Sub(w.cfg.Epoch)\n\tcycleNum := elapsed / w.cfg.CycleLength\n" + floorOld, New: "func (w *WindowCalculator) cycleStart(t time.Time) time.Time {\n\treturn w.cfg.Epoch.Add(time.Duration(w.cycleIndex(t)) * w.cfg.CycleLength)\n}\n\nfunc (w *WindowCalculator) cycleIndex(t time.Time) int64 {\n\tcycle := w.cfg.CycleLength\n\telapsed := t.Sub(w.cfg.Epoch)\n\tcycleNum := elapsed / cycle\n\tif cycleNum*cycle > elapsed {\n"},
+				{File: f, Old: "\t\tcycleNum--\n\t}\n\treturn w.cfg.Epoch.Add(cycleNum * w.cfg.CycleLength)", New: "\t\tcycleNum--\n\t}\n\treturn int64(cycleNum)"},
+			}},
+			{Name: "cycleIndex helper without the floor correction", ExpectRule: "C33.R1", Edits: []Edit{
+				{File: f, Old: "func (w *WindowCalculator) cycleStart(t time.Time) time.Time {\n\telapsed := t.Sub(w.cfg.Epoch)\n\tcycleNum := elapsed / w.cfg.CycleLength\n" + floorOld + "\t\t// Go's integer division truncates toward zero. For instants before\n\t\t// the epoch that would select the following cycle: take the floor.\n\t\tcycleNum--\n\t}\n\treturn w.cfg.Epoch.Add(cycleNum * w.cfg.CycleLength)", New: "func (w *WindowCalculator) cycleStart(t time.Time) time.Time {\n\treturn w.cfg.Epoch.Add(time.Duration(w.cycleIndex(t)) * w.cfg.CycleLength)\n}\n\nfunc (w *WindowCalculator) cycleIndex(t time.Time) int64 {\n\treturn int64(t.Sub(w.cfg.Epoch) / w.cfg.CycleLength)"},
+			}},
 			// rewrites
 			{Name: "rewrite: floor via sign test and remainder", Edits: []Edit{
 				{File: f, Old: floorOld, New: "\tif !(elapsed >= 0) && elapsed%w.cfg.CycleLength != 0 {\n"},
@@ -277,19 +294,47 @@ func (cx *c33ctx) ruleFloor() {
 	fn := cx.cycleStart
 	key := kit.FuncName(fn)
 	pos := p.Pos(fn.Pos())
-	// elapsed = t.Sub(epoch)
+	// elapsed = t.Sub(epoch): in the method itself, or in a helper the instant is handed to
+	// (cycleStart -> cycleIndex(t))
 	var elapsed *ssa.Call
-	for _, c := range kit.Calls(fn) {
-		if call, ok := c.(*ssa.Call); ok {
-			if sc := c33TimeCall(call, "Sub"); sc != nil && len(fn.Params) == 2 && sc.Call.Args[0] == ssa.Value(fn.Params[1]) && kit.IsLoadOfField(sc.Call.Args[1], cx.epochF) {
-				elapsed = sc
+	var tParam ssa.Value
+	var findElapsed func(f *ssa.Function, t ssa.Value, depth int) bool
+	findElapsed = func(f *ssa.Function, t ssa.Value, depth int) bool {
+		for _, c := range kit.Calls(f) {
+			if call, ok := c.(*ssa.Call); ok {
+				if sc := c33TimeCall(call, "Sub"); sc != nil && sc.Call.Args[0] == t && kit.IsLoadOfField(sc.Call.Args[1], cx.epochF) {
+					fn, elapsed, tParam = f, sc, t
+					return true
+				}
 			}
 		}
+		if depth >= 2 {
+			return false
+		}
+		for _, c := range kit.Calls(f) {
+			cal := kit.CalleeOf(c)
+			if cal.Static == nil || cal.Static.Blocks == nil || !kit.IsRepoPkg(cal.Pkg) {
+				continue
+			}
+			for i, a := range c.Common().Args {
+				if a == t && i < len(cal.Static.Params) && findElapsed(cal.Static, cal.Static.Params[i], depth+1) {
+					return true
+				}
+			}
+		}
+		return false
 	}
-	if !r.Require(elapsed != nil, "anchor-unresolved: %s does not compute t.Sub(cfg.Epoch)", key) {
+	if len(fn.Params) == 2 {
+		findElapsed(fn, fn.Params[1], 0)
+	}
+	if !r.Require(elapsed != nil, "anchor-unresolved: %s (and the helpers it hands the instant to) does not compute t.Sub(cfg.Epoch)", key) {
 		return
 	}
-	fl := &c33floor{cx: cx, fn: fn, elapsed: elapsed, tParam: fn.Params[1],
+	if fn != cx.cycleStart {
+		key += " via " + kit.FuncName(fn)
+		pos = p.Pos(fn.Pos())
+	}
+	fl := &c33floor{cx: cx, fn: fn, elapsed: elapsed, tParam: tParam,
 		isCycle: func(v ssa.Value) bool { return kit.IsLoadOfField(v, cx.cycleF) }}
 	// helper form: elapsed and the cycle length are handed to a repository function
 	if !fl.hasDivision() {
@@ -797,10 +842,32 @@ func (l c33lin) eq(m map[string]int) bool {
 	return len(l.terms) <= 3
 }
 
-func (cx *c33ctx) dur(v ssa.Value, scale int, out map[string]int, depth int) bool {
+// c33env binds the parameters of an inlined helper to the caller's values.
+type c33env struct {
+	bind   map[*ssa.Parameter]ssa.Value
+	parent *c33env
+}
+
+func (e *c33env) resolve(v ssa.Value) (ssa.Value, *c33env) {
+	for e != nil {
+		prm, ok := v.(*ssa.Parameter)
+		if !ok {
+			return v, e
+		}
+		b, ok := e.bind[prm]
+		if !ok {
+			return v, e
+		}
+		v, e = b, e.parent
+	}
+	return v, nil
+}
+
+func (cx *c33ctx) dur(v ssa.Value, scale int, out map[string]int, depth int, env *c33env) bool {
 	if depth > 8 {
 		return false
 	}
+	v, env = env.resolve(kit.StripConv(v))
 	v = kit.StripConv(v)
 	switch {
 	case kit.IsLoadOfField(v, cx.cycleF):
@@ -822,55 +889,145 @@ func (cx *c33ctx) dur(v ssa.Value, scale int, out map[string]int, depth int) boo
 		}
 	case *ssa.UnOp:
 		if x.Op == token.SUB {
-			return cx.dur(x.X, -scale, out, depth+1)
+			return cx.dur(x.X, -scale, out, depth+1, env)
 		}
 	case *ssa.BinOp:
 		switch x.Op {
 		case token.ADD:
-			return cx.dur(x.X, scale, out, depth+1) && cx.dur(x.Y, scale, out, depth+1)
+			return cx.dur(x.X, scale, out, depth+1, env) && cx.dur(x.Y, scale, out, depth+1, env)
 		case token.SUB:
-			return cx.dur(x.X, scale, out, depth+1) && cx.dur(x.Y, -scale, out, depth+1)
+			return cx.dur(x.X, scale, out, depth+1, env) && cx.dur(x.Y, -scale, out, depth+1, env)
 		case token.MUL:
 			if k, ok := kit.ConstInt(x.X); ok {
-				return cx.dur(x.Y, scale*int(k), out, depth+1)
+				return cx.dur(x.Y, scale*int(k), out, depth+1, env)
 			}
 			if k, ok := kit.ConstInt(x.Y); ok {
-				return cx.dur(x.X, scale*int(k), out, depth+1)
+				return cx.dur(x.X, scale*int(k), out, depth+1, env)
 			}
 		}
 	}
 	return false
 }
 
-func (cx *c33ctx) lin(v ssa.Value, now ssa.Value, depth int) (c33lin, bool) {
-	if depth > 8 {
-		return c33lin{}, false
+// c33var is one way a time value can be composed: a linear form, the phi edges chosen on the
+// way and the conditions of those edges (top-level function only).
+type c33var struct {
+	l      c33lin
+	choice map[*ssa.BasicBlock]int
+	gs     []kit.Guard
+}
+
+func (v c33var) clone() c33var {
+	n := c33var{l: c33lin{base: v.l.base, terms: map[string]int{}}, choice: map[*ssa.BasicBlock]int{}, gs: append([]kit.Guard(nil), v.gs...)}
+	for k, x := range v.l.terms {
+		n.l.terms[k] = x
 	}
-	if c, ok := v.(*ssa.Call); ok {
-		if cal := kit.CalleeOf(c); cal.Static != nil && cal.Static == cx.cycleStart && len(c.Call.Args) == 2 {
-			if c.Call.Args[1] == now {
-				return c33lin{base: now, terms: map[string]int{}}, true
+	for k, x := range v.choice {
+		n.choice[k] = x
+	}
+	return n
+}
+
+// variants expands v into linear forms over cycleStart(now): phis are split (inside the
+// expression as well), small repository helpers are inlined.
+func (cx *c33ctx) variants(v ssa.Value, now ssa.Value, env *c33env, depth int) ([]c33var, bool) {
+	if depth > 10 {
+		return nil, false
+	}
+	v, env = env.resolve(v)
+	switch x := v.(type) {
+	case *ssa.Phi:
+		var out []c33var
+		for i, e := range x.Edges {
+			vs, ok := cx.variants(e, now, env, depth+1)
+			if !ok {
+				return nil, false
+			}
+			for _, one := range vs {
+				c := one.clone()
+				c.choice[x.Block()] = i
+				if env == nil {
+					c.gs = append(c.gs, kit.EdgeGuards(x.Block().Preds[i], x.Block())...)
+				}
+				out = append(out, c)
+			}
+		}
+		return out, true
+	case *ssa.Extract:
+		if call, ok := x.Tuple.(*ssa.Call); ok {
+			return cx.inline(call, x.Index, now, env, depth)
+		}
+	case *ssa.Call:
+		if cal := kit.CalleeOf(x); cal.Static != nil && cal.Static == cx.cycleStart && len(x.Call.Args) == 2 {
+			arg, aenv := env.resolve(x.Call.Args[1])
+			if arg == now {
+				return []c33var{{l: c33lin{base: now, terms: map[string]int{}}, choice: map[*ssa.BasicBlock]int{}}}, true
 			}
 			// cycleStart(now + k*CycleLength) = cycleStart(now) + k*CycleLength
-			if a := c33TimeCall(c.Call.Args[1], "Add"); a != nil && a.Call.Args[0] == now {
-				terms := map[string]int{}
-				if cx.dur(a.Call.Args[1], 1, terms, 0) && terms["W"] == 0 && terms["off"] == 0 {
-					return c33lin{base: now, terms: terms}, true
+			if a := c33TimeCall(arg, "Add"); a != nil {
+				if r0, _ := aenv.resolve(a.Call.Args[0]); r0 == now {
+					terms := map[string]int{}
+					if cx.dur(a.Call.Args[1], 1, terms, 0, aenv) && terms["W"] == 0 && terms["off"] == 0 {
+						return []c33var{{l: c33lin{base: now, terms: terms}, choice: map[*ssa.BasicBlock]int{}}}, true
+					}
 				}
 			}
+			return nil, false
 		}
-		if a := c33TimeCall(c, "Add"); a != nil {
-			l, ok := cx.lin(a.Call.Args[0], now, depth+1)
+		if a := c33TimeCall(x, "Add"); a != nil {
+			vs, ok := cx.variants(a.Call.Args[0], now, env, depth+1)
 			if !ok {
-				return l, false
+				return nil, false
 			}
-			if !cx.dur(a.Call.Args[1], 1, l.terms, 0) {
-				return l, false
+			var out []c33var
+			for _, one := range vs {
+				c := one.clone()
+				if !cx.dur(a.Call.Args[1], 1, c.l.terms, 0, env) {
+					return nil, false
+				}
+				out = append(out, c)
 			}
-			return l, true
+			return out, true
+		}
+		return cx.inline(x, 0, now, env, depth)
+	}
+	return nil, false
+}
+
+// inline expands result idx of a call to a small repository function with a single return.
+func (cx *c33ctx) inline(call *ssa.Call, idx int, now ssa.Value, env *c33env, depth int) ([]c33var, bool) {
+	cal := kit.CalleeOf(call)
+	h := cal.Static
+	if h == nil || h.Blocks == nil || !kit.IsRepoPkg(cal.Pkg) || h == cx.offset || depth > 6 {
+		return nil, false
+	}
+	var rets []*ssa.Return
+	for _, ret := range kit.Returns(h) {
+		if ret.Block() != h.Recover {
+			rets = append(rets, ret)
 		}
 	}
-	return c33lin{}, false
+	if len(rets) != 1 || idx >= len(rets[0].Results) || len(h.Params) != len(call.Call.Args) {
+		return nil, false
+	}
+	ne := &c33env{bind: map[*ssa.Parameter]ssa.Value{}, parent: env}
+	for i, prm := range h.Params {
+		ne.bind[prm] = call.Call.Args[i]
+	}
+	if env == nil {
+		// arguments are caller values: resolve them in the caller's (empty) environment
+		ne.parent = nil
+	}
+	return cx.variants(kit.ReturnResult(rets[0], idx), now, ne, depth+1)
+}
+
+// lin: the single linear form of v (no alternatives).
+func (cx *c33ctx) lin(v ssa.Value, now ssa.Value, depth int) (c33lin, bool) {
+	vs, ok := cx.variants(v, now, nil, depth)
+	if !ok || len(vs) != 1 {
+		return c33lin{}, false
+	}
+	return vs[0].l, true
 }
 
 // afterNow: cond==pol means "now is after X" (or not before X). Returns X.
@@ -916,32 +1073,48 @@ func (cx *c33ctx) ruleNext(fn *ssa.Function) {
 		pos := p.Pos(ret.Pos())
 		start, end := kit.ReturnResult(ret, 0), kit.ReturnResult(ret, 1)
 		type variant struct {
-			s, e ssa.Value
-			gs   []kit.Guard
+			ls, le c33lin
+			gs     []kit.Guard
 		}
 		var vs []variant
-		sp, sIsPhi := start.(*ssa.Phi)
-		ep, eIsPhi := end.(*ssa.Phi)
-		switch {
-		case sIsPhi && eIsPhi && sp.Block() == ep.Block():
-			for i := range sp.Edges {
-				vs = append(vs, variant{sp.Edges[i], ep.Edges[i], kit.EdgeGuards(sp.Block().Preds[i], sp.Block())})
+		svs, ok1 := cx.variants(start, now, nil, 0)
+		evs, ok2 := cx.variants(end, now, nil, 0)
+		if !ok1 || !ok2 {
+			nVariants++
+			r.Violation("C33.R3", fmt.Sprintf("%s result #%d variant #1", key, ri+1), pos, "the returned window is not cycleStart(now) plus offset, CycleLength and WindowLength terms: the window is not tied to the cycle containing now")
+			continue
+		}
+		paired := true
+		for _, sv := range svs {
+			var match *c33var
+			n := 0
+			for i := range evs {
+				compatible := true
+				for ph, e := range sv.choice {
+					if e2, both := evs[i].choice[ph]; both && e2 != e {
+						compatible = false
+					}
+				}
+				if compatible {
+					match = &evs[i]
+					n++
+				}
 			}
-		case !sIsPhi && !eIsPhi:
-			vs = append(vs, variant{start, end, kit.GuardsOf(ret)})
-		default:
+			if n != 1 {
+				paired = false
+				break
+			}
+			gs := append(append(append([]kit.Guard(nil), kit.GuardsOf(ret)...), sv.gs...), match.gs...)
+			vs = append(vs, variant{sv.l, match.l, gs})
+		}
+		if !paired || len(svs) != len(evs) {
 			r.Violation("C33.R3", fmt.Sprintf("%s result #%d shape", key, ri+1), pos, "start and end of the returned window are not selected together: a start of one cycle can be paired with the end of another")
 			continue
 		}
 		for vi, v := range vs {
 			nVariants++
 			vkey := fmt.Sprintf("%s result #%d variant #%d", key, ri+1, vi+1)
-			ls, ok1 := cx.lin(v.s, now, 0)
-			le, ok2 := cx.lin(v.e, now, 0)
-			if !ok1 || !ok2 {
-				r.Violation("C33.R3", vkey, pos, "the returned window is not cycleStart(now) plus offset, CycleLength and WindowLength terms: the window is not tied to the cycle containing now")
-				continue
-			}
+			ls, le := v.ls, v.le
 			adv := ls.terms["C"]
 			okStart := ls.terms["off"] == 1 && ls.terms["W"] == 0 && (adv == 0 || adv == 1)
 			r.Decide(okStart, "C33.R3", vkey+" start", pos, "start = "+ls.String(),
